@@ -303,7 +303,22 @@ def col_name(pair, naming):
 _FMTS = ["%.3f", "%.2f", "%.1f", "%d", "%.8f", "%.5f"]
 
 
-def static_table(subset, order, naming, lattice, nv, layout, lathdr=0):
+ENDINGS = ["eol", "no-final-eol", "1-empty-line", "3-empty-lines", "whitespace-line", "whitespace-no-eol", "empty+whitespace"]
+
+
+def _apply_ending(text, ending, eol):
+    """`text` ends with one line terminator after its last row.  What follows the last row is only ever
+    blank: nothing is tabulated there."""
+    if ending == "eol":
+        return text
+    if ending == "no-final-eol":
+        return text[:-len(eol)]
+    tail = {"1-empty-line": eol, "3-empty-lines": eol * 3, "whitespace-line": "  \t " + eol, "whitespace-no-eol": "   ",
+            "empty+whitespace": eol + " \t" + eol + eol}[ending]
+    return text + tail
+
+
+def static_table(subset, order, naming, lattice, nv, layout, lathdr=0, ending="eol"):
     """(text, expected) of a static table in which every slot holds a distinct number."""
     pairs = order_pairs(SUBSETS[subset], order)
     names = [("v" if layout == "crlf-tabs" else "V")] + [col_name(p, naming) for p in pairs]
@@ -325,6 +340,7 @@ def static_table(subset, order, naming, lattice, nv, layout, lathdr=0):
     vref, cellmass = "586.01996000", "200.782"
     title = "V_0 N cellmass akimotoite (24.305+16.0*3+28.086)*2"
     text = R.write_static(title, vref, nv, cellmass, names, rows, lat, layout, lattice_header=R.LATTICE_HEADERS[lathdr])
+    text = _apply_ending(text, ending, R.LAYOUTS[layout]["eol"])
     flat = [float(t) for r in rows for t in r] + ([float(t) for r in lat for t in r] if lat else [])
     if len(set(flat)) != len(flat):
         raise HarnessError("static table generator produced a repeated value")
@@ -385,7 +401,7 @@ def _cmp_static(got, exp, prefix, viol, what):
 def _static_case(case):
     from cij.io.traditional.elast_dat import read_elast_data
     text, exp = static_table(case["subset"], case["order"], case["naming"], case["lattice"], case["nv"], case["layout"],
-                             case.get("lathdr", 0))
+                             case.get("lathdr", 0), case.get("ending", "eol"))
     viol = []
     d = tempfile.mkdtemp(dir="/dev/shm", prefix="c17s-")
     try:
@@ -409,8 +425,8 @@ def _static_case(case):
             "rows": rp["rows"], "lattice": rp["lattice"]}
     if mine != exp:
         raise HarnessError("io_ref does not read back its own static table")
-    return {"viol": viol, "outcome": f"static/{case['subset']}/{case['naming']}/lat{int(case['lattice'])}/hdr{case.get('lathdr', 0)}" if not viol else "violation",
-            "key": "st" + "/".join(str(case.get(k, 0)) for k in ("subset", "order", "naming", "lattice", "nv", "layout", "lathdr"))}
+    return {"viol": viol, "outcome": f"static/{case['subset']}/{case['naming']}/lat{int(case['lattice'])}/hdr{case.get('lathdr', 0)}/{case.get('ending', 'eol')}" if not viol else "violation",
+            "key": "st" + "/".join(str(case.get(k, 0)) for k in ("subset", "order", "naming", "lattice", "nv", "layout", "lathdr", "ending"))}
 
 
 # =========================================================================== fill command
@@ -487,10 +503,15 @@ def fill_table(system, numstyle, given, case_letter, order, nv, lattice, layout,
         cols = indep
     elif given == "one-dependent":       # the independent ones + the last dependent one (c66 / c55 ...)
         cols = indep + deps[-1:]
+    elif given == "independent+zero":    # ... + a component that vanishes by symmetry, tabulated as zeros
+        cols = indep + [zero_pair(system)]
     else:
         cols = R.nonzero_pairs(system)
     cols = order_pairs(cols, order)
     tab = [{p: full[iv][p] for p in cols} for iv in range(nv)]      # what is written on the page
+    if given == "independent+zero":
+        for iv in range(nv):
+            tab[iv][zero_pair(system)] = Decimal(["0.000", "0.0", "-0.00"][iv % 3])
     residual = 0.0
     if valuekind == "within-tolerance":
         # every tabulated dependent component disagrees with its relation by a few 0.01 (distinct per slot); the
@@ -530,7 +551,10 @@ def fill_table(system, numstyle, given, case_letter, order, nv, lattice, layout,
     if lattice:
         lat = [["%.15f" % (1.014113439015351 - 0.0161 * iv + 0.0007 * variant), "%.15f" % (0.878861666717805 - 0.0152 * iv + 0.0007 * variant),
                 "%.15f" % (2.910090805459099 - 0.0503 * iv + 0.0007 * variant)] for iv in range(nv)]
-    names = ["V"] + [R.name_2digit(p, case_letter) for p in cols]
+    if case_letter == "mixed":       # capitals and small letters in one label row; a tabulated vanishing column gets a capital
+        names = ["V"] + [R.name_2digit(p, "C" if (i % 2 == 0 or p not in R.nonzero_pairs(system)) else "c") for i, p in enumerate(cols)]
+    else:
+        names = ["V"] + [R.name_2digit(p, case_letter) for p in cols]
     title = f"V_0 N cellmass {system} (24.305+16.0*3+28.086)*2"
     text = R.write_static(title, vref, nv, cellmass, names, rows, lat, layout, lattice_header=R.LATTICE_HEADERS[lathdr])
     vals = [tab[iv][p] for iv in range(nv) for p in indep]
@@ -541,6 +565,12 @@ def fill_table(system, numstyle, given, case_letter, order, nv, lattice, layout,
             if full[iv][p] == 0:
                 raise HarnessError(f"fill table generator: dependent component {p} vanishes for {system}")
     return text, {"volumes": vols, "full": full, "given": cols, "indep": indep, "tabulated": tab, "residual": residual}
+
+
+def zero_pair(system):
+    """The first component (Voigt order) that vanishes by the symmetry of `system`."""
+    nz = set(R.nonzero_pairs(system))
+    return next(p for p in R.VOIGT_PAIRS if p not in nz)
 
 
 def _fits(x: Decimal, places=6) -> bool:
@@ -721,6 +751,14 @@ def _fill_case(case):
                         strict = strict_all or _fits(e)
                         if not abs(x - y) <= _fill_tol(Decimal(repr(y)), tok, strict):
                             bad.append((iv, p, x, y))
+                # the two parses have the same components (a column in one and not in the other is a different parse,
+                # whatever number it holds)
+                ka, kb = sorted({p for r in got1["rows"] for p in r}), sorted({p for r in dif["rows"] for p in r})
+                if ka != kb:
+                    viol.append(V("c17:fill:differential:keys",
+                                  f"`cij fill -s {system}`: components of parse(stdout) {['c%d%d' % p for p in ka]} != components of "
+                                  f"apply_symetry_on_elast_data(parse(input)) {['c%d%d' % p for p in kb]}; label row of the input "
+                                  f"{in_parse['names']}"))
                 if len(dif["rows"]) != len(got1["rows"]) or bad:
                     viol.append(V("c17:fill:differential:values",
                                   f"parse(stdout) != apply_symetry_on_elast_data(parse(input)): {len(bad)} cell(s), first {bad[:1]}"))
@@ -1184,6 +1222,11 @@ def static_cases():
     # block depends on (subset = row width before it, n_V = its length, layout = blanks / line ends around it)
     out += [{"kind": "static", "subset": sub, "order": "voigt", "naming": "c11", "lattice": True, "nv": nv, "layout": lay, "lathdr": h}
             for h in range(1, len(R.LATTICE_HEADERS)) for sub in SUBSETS for nv in STATIC_NV for lay in STATIC_LAYOUTS]
+    # how the file ends after the last tabulated row (of the table, or of the lattice block): no final line terminator,
+    # empty lines, whitespace-only lines.  Nothing is tabulated there: no block tabulated -> no lattice parameters read.
+    out += [{"kind": "static", "subset": sub, "order": "voigt", "naming": "c11", "lattice": lat, "nv": nv, "layout": lay, "lathdr": 0,
+             "ending": e}
+            for e in ENDINGS[1:] for sub in ("cubic3", "full21") for lat in (False, True) for nv in STATIC_NV for lay in STATIC_LAYOUTS]
     return out
 
 
@@ -1220,6 +1263,15 @@ def fill_cases(quick):
                     out.append({"kind": "fill", "system": s, "numstyle": "float", "given": g, "valuekind": "consistent", "lattice": 1,
                                 "letter": cfg["letter"], "order": cfg["order"], "nv": cfg["nv"], "layout": cfg["layout"], "lathdr": 0,
                                 "tiny": tiny, "chain": ops if not quick else ops[:1]})
+        # a component that vanishes by symmetry is tabulated explicitly (zeros at every volume) x letter case of the label row
+        if len(R.nonzero_pairs(s)) < 21:
+            for letter in ("c", "C", "mixed"):
+                for cfg, k in minors:
+                    if cfg["lathdr"] or cfg["letter"] != "c" or (quick and k and cfg["nv"] == FILL_MINOR["nv"][0]):
+                        continue
+                    out.append({"kind": "fill", "system": s, "numstyle": "float", "given": "independent+zero", "valuekind": "consistent",
+                                "lattice": 1, "letter": letter, "order": cfg["order"], "nv": cfg["nv"], "layout": cfg["layout"], "lathdr": 0,
+                                "chain": ops[:1]})
         # value kind "within-tolerance": tabulated components over-determine the relations and disagree slightly.
         # Only where something can disagree: a system with dependent components, and a dependent one tabulated.
         # No second fill: the compromise of a slightly inconsistent table is not itself consistent, so fill is not
@@ -1249,9 +1301,11 @@ def explore(ctx):
         "inwards; physical: descending V, negative E, negative acoustic frequencies at Gamma) x 4 (nm,na) x 2 comment "
         "lines, every slot of a data set holding a distinct number. static: 4 component subsets x 3 column orders x 11 "
         "column spellings (c11, C11, c_11, 4-digit, swapped 4-digit, c21, and the prefixes cij, Cij_, elast, C^st_, Cijkl) x lattice block absent/present x n_V in {1,2,9} x 3 shipped presentations (blanks, padded, "
-        "CRLF+tabs), every slot distinct; plus, with a lattice block, 4 further spellings of its one-line header (upper case, "
+        "CRLF+tabs), every slot distinct; plus 6 file endings after the last row (no final terminator, empty lines, "
+        "whitespace-only lines) x lattice block absent/present x n_V x presentations; plus, with a lattice block, 4 further spellings of its one-line header (upper case, "
         "`a b c`, a `#` comment, a sentence) x subsets x n_V x presentations. fill: 9 systems x 4 number styles x {independent, all non-vanishing} "
-        "components given x lattice block (full product), plus a weak independent component (3e-5 / 5e-7 at every volume) x 9 "
+        "components given x lattice block (full product), plus a symmetry-forbidden component tabulated as zeros x {c, C, mixed} "
+        "label rows x 8 systems, plus a weak independent component (3e-5 / 5e-7 at every volume) x 9 "
         "systems x given, plus value kind `within-tolerance` (tabulated dependent components "
         "disagree with their relation by 0.04..0.08, residual <= half the tolerance) x 6 systems with dependent components x "
         "{float, 9-decimal} x {independent + one dependent, all non-vanishing} given x lattice block; each x deviation lattice over presentation {c/C, column order, n_V in "
@@ -1316,7 +1370,7 @@ def explore(ctx):
     ctx.notes["alphabets"] = {
         "phonon": {"shapes": len(SHAPES), "families": len(FAMILIES), "nm_na": len(NMNA), "comments": len(COMMENTS),
                    "cases": len(ph), "largest_data_set_slots": 12 * (3 + 10 * 63) + 40},
-        "static": {"lattice_header_spellings": R.LATTICE_HEADERS, "subsets": {k: len(v) for k, v in SUBSETS.items()}, "orders": len(ORDERS), "spellings": NAMINGS,
+        "static": {"endings": ENDINGS, "lattice_header_spellings": R.LATTICE_HEADERS, "subsets": {k: len(v) for k, v in SUBSETS.items()}, "orders": len(ORDERS), "spellings": NAMINGS,
                    "lattice": 2, "n_V": STATIC_NV, "layouts": STATIC_LAYOUTS, "cases": len(st)},
         "fill": {"systems": len(SYSTEM_NAMES), "number_styles": NUMSTYLES, "given": GIVEN, "lattice": 2,
                  "value_kinds": VALUEKINDS, "weak_component": {"magnitudes": TINY[1:], "pair": {k: list(v) for k, v in TINY_PAIR.items()},
@@ -1367,8 +1421,11 @@ def selftest():
     chk("voigt_key orbit sizes", sorted(cnt.values()) == [1] * 3 + [2] * 3 + [4] * 12 + [8] * 3 and len(cnt) == 21)
     # 2. static writer/parser are inverse on every enumerated table (static_table also asserts distinct slots)
     for c in static_cases():
-        text, exp = static_table(c["subset"], c["order"], c["naming"], c["lattice"], c["nv"], c["layout"], c["lathdr"])
+        text, exp = static_table(c["subset"], c["order"], c["naming"], c["lattice"], c["nv"], c["layout"], c["lathdr"], c.get("ending", "eol"))
         rp = R.parse_static(text)
+        if c.get("ending", "eol") != "eol":
+            chk("ending changes the bytes only after the last row", text != static_table(c["subset"], c["order"], c["naming"], c["lattice"],
+                                                                                        c["nv"], c["layout"])[0])
         if c["lathdr"]:
             chk("lattice header spelling is on the page", rp["lattice_lines"][0] == R.LATTICE_HEADERS[c["lathdr"]] and len(rp["lattice"]) == c["nv"])
         chk("static write/parse inverse", {k: rp[k] for k in ("vref", "nv", "cellmass", "volumes", "rows", "lattice")} == exp)
